@@ -203,9 +203,13 @@ Fixpoint rem_evs (m : htrans -> bool) (trig : event) (evs : events) : events :=
       else (e, ts) :: rem_evs m trig r
   end.
 
-(* a child named like the whole remaining source or dest path is not visited; a child
-   that is the head of a path sees the rest, every other child sees the path unchanged *)
-Definition rem_skip (n : nat) (sp dp : path) : bool := peqb sp [n] || peqb dp [n].
+(* a child named like the whole remaining source or dest path is not visited; a filter is a
+   path starting in the current scope, so a child that is not its head is not visited either
+   (nothing declared in another branch can match); the head child sees the rest of the path *)
+Definition not_head (n : nat) (p : path) : bool :=
+  match p with [] => false | m :: _ => negb (Nat.eqb m n) end.
+Definition rem_skip (n : nat) (sp dp : path) : bool :=
+  peqb sp [n] || peqb dp [n] || not_head n sp || not_head n dp.
 Definition rem_strip (n : nat) (p : path) : path :=
   match p with m :: r => if Nat.eqb m n then r else p | [] => [] end.
 
@@ -351,6 +355,29 @@ Definition expressible (a : hattrs) : bool :=
   match a_ignore a with Some None => false | _ => true end.
 Fixpoint wf_pt (t : ptree) : bool :=
   match t with PT _ a ch => expressible a && nodup_pt ch && forallb wf_pt ch end.
+
+(* ---------------------------------------------------------------- specification side:
+   remove_transition(trigger, source, dest) deletes exactly the transitions whose ABSOLUTE
+   source / destination are the given paths, whatever scope declares them *)
+Definition abs_match (q sp dp : path) (t : htrans) : bool :=
+  (is_nil sp || peqb (q ++ ht_src t) sp)
+  && (is_nil dp || match ht_dst t with Some d => peqb (q ++ d) dp | None => false end).
+Fixpoint filt_d (trig : event) (sp dp q : path) (d : sdefn) : sdefn :=
+  match d with
+  | SDef n en ex onf fin ign ini evs ch =>
+      SDef n en ex onf fin ign ini (rem_evs (abs_match (q ++ [n]) sp dp) trig evs)
+           (map (filt_d trig sp dp (q ++ [n])) ch)
+  end.
+Definition filt_scope (trig : event) (sp dp : path) (sc : scope) : scope :=
+  (map (filt_d trig sp dp []) (fst sc), rem_evs (abs_match [] sp dp) trig (snd sc)).
+(* sources and destinations are non-empty paths, no event without transitions *)
+Definition wfp_t (t : htrans) : bool :=
+  negb (is_nil (ht_src t)) && match ht_dst t with Some d => negb (is_nil d) | None => true end.
+Definition wfp_evs (evs : events) : bool :=
+  nonempty_events evs && forallb (fun p => forallb wfp_t (snd p)) evs.
+Fixpoint wfp_d (d : sdefn) : bool :=
+  match d with SDef _ _ _ _ _ _ _ evs ch => wfp_evs evs && forallb wfp_d ch end.
+Definition wfp_scope (sc : scope) : bool := forallb wfp_d (fst sc) && wfp_evs (snd sc).
 
 (* absolute (event, source) pairs of all transitions of a machine, whatever scope declares them *)
 Fixpoint abs_sources_d (prefix : path) (d : sdefn) : list (event * path) :=
